@@ -51,6 +51,13 @@ def alias_family():
     return P
 
 
+def wide_instr_programs():
+    """single instructions whose circuit has more than 65535 wires (tmp wire indices need the 32-bit encoding while all permanent ids are small)"""
+    return [("udiv128", "package main\nfunc main(a, b uint128) uint128 { return a / b }\n", []),
+            ("umod128", "package main\nfunc main(a, b uint128) uint128 { return a % b }\n", []),
+            ("umult192", "package main\nfunc main(a, b uint192) uint192 { return a * b }\n", [])]
+
+
 def big_id_program():
     n = 4200
     src = "package main\n\nfunc main(a [%d]uint16, b uint16) uint16 {\n\tsum := b\n\tfor i := 0; i < %d; i++ {\n\t\tsum += a[i]\n\t}\n\treturn sum\n}\n" % (n, n)
@@ -150,6 +157,8 @@ def main():
     for k in range(ngen):
         g = mpclgen.Gen(SEED * 7919 + 900000 + k, muldiv_max=8, depth=3 if k % 4 else 2, big=(k % 3 != 0))
         progs.append(("gen%d" % k, "generated", g.program().source(), []))
+    for n, s, z in wide_instr_programs():
+        progs.append((n, "wide-instr", s, z))
     if tier != "quick":
         n, s, z = big_id_program()
         progs.append((n, "wide-ids", s, z))
@@ -269,7 +278,7 @@ def main():
         "concrete_sessions": len(concrete), "concrete_samples": concrete[:3], "per_program": per_prog, "stream_features": features,
         "solver_queries": queries, "solver": "z3 " + z3.get_version_string(),
         "bounds": ["%d alias-stress programs (mov/smov casts of temporaries, constant shifts, slices, array element updates, run-time indexing, structs, multi-result calls, id-recycling loops, "
-                   "unsized signatures instantiated by input sizes), %d generated programs (seed %d)%s" % (len(alias_family()), ngen, SEED, ", one program with more than 65535 live wire ids (32-bit id encoding)" if tier != "quick" else ""),
+                   "unsized signatures instantiated by input sizes), single-instruction programs whose circuit exceeds 65535 wires (32-bit tmp wire ids: uint128 division and modulo, uint192 multiplication), %d generated programs (seed %d)%s" % (len(alias_family()), ngen, SEED, ", one program with more than 65535 live wire ids (32-bit id encoding)" if tier != "quick" else ""),
                    "one concrete session per program fixes the gate stream (the stream does not depend on input values); the input quantifier is decided by z3",
                    "per-query timeout %d s, per-program budget %d s" % (timeout_ms // 1000, budget)],
         "outside_the_claim": ["programs outside the corpus", "the garbling itself (labels, tables): the tap decodes gate structure only; label-level agreement of garbler and evaluator is covered by the concrete session result and by C01 for the gate kernels",
